@@ -202,7 +202,13 @@ def check_c(ck, repo):
             ck.verdict(got == want_, "C15.c", fit, f"{src_of(c)} where takes_y={takes_y}, takes_weight={takes_w}", "X, y, sample_weight forwarded unchanged according to the wrapped signature", f"the wrapped fit receives {got} where its signature {'has' if takes_y else 'lacks'} y and {'has' if takes_w else 'lacks'} sample_weight: expected {want_}")
     if n_calls == 0:
         ck.unknown("C15.c", fit, ".fit(...)", "no fit call found (trainable has no effect?)")
-    ck.verdict(forms == {(True, True), (True, False), (False, True), (False, False)}, "C15.c", fit, f"signature cases {sorted(forms, key=str)}", "all four signature cases of the wrapped fit are handled", f"fit call forms changed: cases {sorted(forms, key=str)}")
+    from engine.report import UNKNOWN as _UNK
+
+    unopened = [o for o in ck.obs if o.rule == "C15.c" and o.verdict == _UNK and "container" in (o.detail or "")]
+    if not forms and unopened:
+        pass  # the call arguments travel in containers the evaluation could not open: reported above as unknown
+    else:
+      ck.verdict(forms == {(True, True), (True, False), (False, True), (False, False)}, "C15.c", fit, f"signature cases {sorted(forms, key=str)}", "all four signature cases of the wrapped fit are handled", f"fit call forms changed: cases {sorted(forms, key=str)}")
     # estimator_ provenance
     T, F = cond_text("self.copy_estimator"), cond_text("self.copy_estimator", False)
     by_guard = {}
